@@ -78,8 +78,9 @@ type Upstream struct {
 
 	closedNotified sync.Once // the closed event is delivered once, whichever close path gets there first
 
-	writeMu    sync.RWMutex  // held (shared) from the state check of a write to its hand-over; Close waits for these writes
-	drainingCh chan struct{} // closed when Close begins: releases writes parked in the hand-over
+	writeMu     sync.RWMutex   // held (shared) from the state check of a write to its hand-over; Close waits for these writes
+	drainingCh  chan struct{}  // closed when Close begins: releases writes parked in the hand-over
+	chunkWrites sync.WaitGroup // chunks handed to a sender goroutine whose write has not returned yet
 
 	sent   sentStorage
 	logger log.Logger
@@ -158,6 +159,17 @@ func (u *Upstream) Close(ctx context.Context, opts ...UpstreamCloseOption) error
 	// before the close request (the wait is bounded by ctx and the close timeout)
 	if err := u.waitToSendAllDataPointsAndReceiveAllAck(ctx, beforeStatus == streamStatusResuming); err != nil {
 		u.logger.Warnf(ctx, "Failed to waitSentAllDataPointsAndReceivedAllAck: %+v", err)
+	}
+	// the chunks are written by goroutines of their own: the close request must not overtake a write that is
+	// still on its way (with a close timeout of 0 nothing above has waited for it)
+	written := make(chan struct{})
+	go func() {
+		u.chunkWrites.Wait()
+		close(written)
+	}()
+	select {
+	case <-written:
+	case <-ctx.Done():
 	}
 	return u.closeWithError(ctx, nil, opts...)
 }
@@ -380,7 +392,7 @@ func (u *Upstream) run(isResume bool) error {
 				u.mu.Lock()
 				u.upstreamChunkResultChs[chunk.StreamChunk.SequenceNumber] = resultCh
 				u.mu.Unlock()
-				u.sendChunkAndWaitAck(ctx, chunk, resultCh)
+				u.sendChunkAndWaitAck(ctx, chunk, resultCh, func() {})
 				u.logger.Debugf(u.ctx, "Resent data point groups[seqNum=%v, count=%v].", seqNum, len(dpg))
 			}
 			return nil
@@ -544,15 +556,22 @@ func (u *Upstream) flush(ctx context.Context) error {
 	// capacity 1: a result that arrives after its waiter gave up (ack timeout) must not block processResult
 	resultCh := make(chan *message.UpstreamChunkResult, 1)
 	u.upstreamChunkResultChs[msgChunk.StreamChunk.SequenceNumber] = resultCh
-	go u.sendChunkAndWaitAck(ctx, msgChunk, resultCh)
+	u.chunkWrites.Add(1)
+	go func() {
+		var once sync.Once
+		written := func() { once.Do(u.chunkWrites.Done) }
+		defer written()
+		u.sendChunkAndWaitAck(ctx, msgChunk, resultCh, written)
+	}()
 	return nil
 }
 
-func (u *Upstream) sendChunkAndWaitAck(ctx context.Context, msgChunk *message.UpstreamChunk, resultCh chan *message.UpstreamChunkResult) {
+func (u *Upstream) sendChunkAndWaitAck(ctx context.Context, msgChunk *message.UpstreamChunk, resultCh chan *message.UpstreamChunkResult, written func()) {
 	u.mu.RLock()
 	wireConn := u.wireConn
 	u.mu.RUnlock()
 	err := wireConn.SendUpstreamChunk(u.ctx, msgChunk)
+	written()
 	if err != nil {
 		u.logger.Warnf(u.ctx, "failed to send upstream chunk[seq:%v]: %+v", msgChunk.StreamChunk.SequenceNumber, err)
 		return
